@@ -82,12 +82,27 @@ def solve_op(case):
     return " ".join(parts)
 
 
+_WORK = {}
+
+
+def _work(name, a):
+    """the harness behaves like a caller that keeps ONE work array per argument and shape and re-fills it in place between
+    solves (a time series of surface fluxes, a resolution study): every real solve of this process receives the same array
+    OBJECTS again and again with new VALUES - a solve must depend on the values only"""
+    a = np.asarray(a, dtype=float)
+    buf = _WORK.get((name, a.shape))
+    if buf is None:
+        buf = _WORK[(name, a.shape)] = np.empty(a.shape, dtype=float)
+    buf[...] = a
+    return buf
+
+
 def real_solve(case, cache=None):
     """Call the real solver with the request."""
     from bldfm.solver import steady_state_transport_solver
     return steady_state_transport_solver(
-        np.asarray(case["q"], dtype=float), np.asarray(case["z"], dtype=float),
-        tuple(np.asarray(p, dtype=float) for p in case["profiles"]),
+        _work("q", case["q"]), _work("z", case["z"]),
+        tuple(_work("prof%d" % k, p) for k, p in enumerate(case["profiles"])),
         tuple(case["domain"]), case["levels"], modes=tuple(case["modes"]),
         meas_pt=tuple(case["meas_pt"]), srf_bg_conc=case.get("bg", 0.0),
         footprint=case["footprint"], analytic=case["analytic"], halo=case.get("halo"),
